@@ -99,13 +99,24 @@ func (r *Run) dirInvariants(evs []*Event) {
 	var removed []*DirOp
 	for _, e := range evs {
 		if e.Kind == "commit" {
-			r.commits++
+			// distinct epochs: a reopened writer commits the snapshots it loads again
+			if r.commitEpochs == nil {
+				r.commitEpochs = map[string]bool{}
+			}
+			r.commitEpochs[e.Detail] = true
+			r.commits = len(r.commitEpochs)
 		}
 		if e.Kind == "return" && strings.HasPrefix(e.Detail, "open ") && strings.TrimSpace(strings.TrimPrefix(e.Detail, "open")) == "" {
 			// a writer was (re)opened: its policy was told about every snapshot it loaded
 		}
 		if d, ok := e.data.(*DirOp); ok && (d.Op == "persist" || d.Op == "remove") {
 			mutated = true
+			if d.Op == "persist" && d.Kind == ".snp" && (d.Err != "" || d.Inject != "") {
+				if r.tornEpochs == nil {
+					r.tornEpochs = map[uint64]bool{}
+				}
+				r.tornEpochs[d.ID] = true
+			}
 		}
 		if e.Kind == "cleanup" {
 			mutated = true
@@ -149,6 +160,19 @@ func (r *Run) dirInvariants(evs []*Event) {
 			desc = append(desc, d)
 		}
 		r.fail("retention", fmt.Sprintf("retention count is %d and %d snapshots were committed, but only %d snapshot(s) on disk are loadable with all their segment files: %v", r.k.KeepN, r.commits, loadable, desc))
+		return
+	}
+	// (i') a committed snapshot that is still on disk keeps all its segment
+	// files: clean-up removes a snapshot file first and its segments only
+	// afterwards, and keeps them when the snapshot's removal failed
+	for _, sf := range snaps {
+		if sf.loadable || !r.commitEpochs[fmt.Sprintf("epoch=%d", sf.epoch)] {
+			continue
+		}
+		if r.tornEpochs[sf.epoch] {
+			continue // rewritten or damaged by an injected write fault: not a clean-up matter
+		}
+		r.fail("snapshot-lost-segment", fmt.Sprintf("snapshot %x was committed and its file is still in the directory, but it is no longer loadable: %s", sf.epoch, sf.why))
 		return
 	}
 	// (ii) no file the live state needs was removed
